@@ -51,6 +51,10 @@ def run(ctx):
     ctx.do(rule_optimiser)
     ctx.do(rule_all_answers_filtered)
     ctx.do(rule_filters_only_grow)
+    ctx.do(rule_scans_complete)
+    from .pitfalls import rule_groupby_sorted, rule_single_use_iterators
+    ctx.do(rule_groupby_sorted, "C12.iterator-pitfalls", ("stix2.datastore",))
+    ctx.do(rule_single_use_iterators, "C12.iterator-pitfalls", ("stix2.datastore",))
     from .hidden_state import rule_no_hidden_state
     ctx.do(rule_no_hidden_state, "C12.history-independence")
 
@@ -222,6 +226,14 @@ def rule_conjunction(ctx):
             if norm(y.value) != norm(outer[0].ast.target):
                 ok = False
                 detail = "something other than the tested object is yielded"
+    if len(outer) == 1:
+        okl, pl = g.must_pass(lambda n: n is outer[0])
+        run.check(okl, R, key(rel, fi.qualname, "every-object-reaches-the-filters"),
+                  "apply_common_filters() can finish before it ranges over the objects (a shortcut decides from the query alone "
+                  "that nothing can match): conjunctions the shortcut misjudges -- two `=` filters on a list-valued property, "
+                  "two spellings of one instant -- return nothing although objects satisfy every filter", file=rel,
+                  line=fi.node.lineno, function=fi.qualname, expected="for obj in <objects> on every path", found="bypass",
+                  path=g.describe_path(pl))
     run.check(ok, R, key(rel, fi.qualname, "all-filters-must-hold"),
               "an object can be yielded although one of the filters evaluated falsy (or filters are skipped) %s" % detail, file=rel,
               line=fi.node.lineno, function=fi.qualname,
@@ -476,6 +488,28 @@ def rule_filters_only_grow(ctx):
                       expected="%s = FilterSet(%s); %s.add(...) only" % (arg.id, qparam, arg.id), found=problems)
     if n < 3:
         raise AnalysisError("query methods: fewer than 3 filter-evaluating calls found (%d)" % n)
+
+
+def rule_scans_complete(ctx):
+    """Every directory / file the optimiser did not rule out is read: the scanning loops of the filesystem search have no
+    early exit (a `break` once "enough" results were counted loses the objects not yet read)."""
+    run = ctx.run
+    prog = ctx.prog
+    R = "C12.scans-complete"
+    n = 0
+    for fid in (FS + "::FileSystemSource.query", FS + "::_search_versioned", FS + "::_search_unversioned"):
+        fi = prog.func(fid)
+        for lp in [x for x in body_walk(fi.node) if isinstance(x, ast.For)]:
+            n += 1
+            exits = [x for s_ in lp.body for x in walk_no_nested(s_) if isinstance(x, (ast.Break, ast.Return))
+                     and not any(isinstance(p_, (ast.For, ast.While)) and p_ is not lp and lp in list(_parents(p_)) for p_ in _parents(x))]
+            run.check(not exits, R, key(fi.module.relpath, fi.qualname, "loop:%s" % short(lp.iter, 50)),
+                      "a scanning loop of the filesystem search can stop before every selected directory / file was read: "
+                      "matching objects stored further on are missing from the answer", file=fi.module.relpath,
+                      line=exits[0].lineno if exits else lp.lineno, function=fi.qualname, expected="no break / return inside the loop",
+                      found=short(exits[0]) if exits else None)
+    if n < 4:
+        raise AnalysisError("filesystem search: fewer than 4 scanning loops found (%d)" % n)
 
 
 def rule_all_answers_filtered(ctx):
